@@ -9,6 +9,7 @@ import (
 	"crypto/rand"
 	"crypto/rsa"
 	"crypto/x509/pkix"
+	"io"
 	"math/big"
 	"net"
 	"sync"
@@ -45,6 +46,29 @@ type LeafOpt struct {
 	KeyType   string // "sm2" (default), "rsa", "ed25519", "p256"
 }
 
+// pkiRand is the randomness used for key generation and certificate signatures.  SeedPKI
+// (called before the first GetPKI) makes the whole PKI a function of the seed, so that the
+// byte positions of a stored replay input mean the same thing in a later process.
+var pkiRand io.Reader = rand.Reader
+
+type oneByteBlind struct{ d *DetRand }
+
+// Read ignores the 1-byte probes of randutil.MaybeReadByte (they would make the stream depend
+// on a coin flip) and otherwise reads the deterministic stream.
+func (r oneByteBlind) Read(p []byte) (int, error) {
+	if len(p) == 1 {
+		p[0] = 0x5a
+		return 1, nil
+	}
+	return r.d.Read(p)
+}
+
+// NewBlindRand is a deterministic Config.Rand whose output does not depend on MaybeReadByte.
+func NewBlindRand(seed uint64) io.Reader { return oneByteBlind{NewDetRand(seed)} }
+
+// SeedPKI makes GetPKI deterministic; it has no effect once the PKI exists.
+func SeedPKI(seed uint64) { pkiRand = NewBlindRand(seed) }
+
 var serial int64 = 100
 var serialMu sync.Mutex
 
@@ -56,7 +80,7 @@ func nextSerial() *big.Int {
 }
 
 func NewCA(cn string) *CA {
-	key, err := sm2.GenerateKey(rand.Reader)
+	key, err := sm2.GenerateKey(pkiRand)
 	if err != nil {
 		panic(err)
 	}
@@ -69,7 +93,7 @@ func NewCA(cn string) *CA {
 		BasicConstraintsValid: true,
 		IsCA:                  true,
 	}
-	der, err := x509.CreateCertificate(rand.Reader, tpl, tpl, &key.PublicKey, key)
+	der, err := x509.CreateCertificate(pkiRand, tpl, tpl, &key.PublicKey, key)
 	if err != nil {
 		panic(err)
 	}
@@ -87,19 +111,19 @@ func (ca *CA) Issue(o LeafOpt) *Leaf {
 	var priv crypto.PrivateKey
 	switch o.KeyType {
 	case "rsa":
-		k, err := rsa.GenerateKey(rand.Reader, 2048)
+		k, err := rsa.GenerateKey(pkiRand, 2048)
 		if err != nil {
 			panic(err)
 		}
 		pub, priv = &k.PublicKey, k
 	case "ed25519":
-		p, k, err := ed25519.GenerateKey(rand.Reader)
+		p, k, err := ed25519.GenerateKey(pkiRand)
 		if err != nil {
 			panic(err)
 		}
 		pub, priv = p, k
 	default:
-		k, err := sm2.GenerateKey(rand.Reader)
+		k, err := sm2.GenerateKey(pkiRand)
 		if err != nil {
 			panic(err)
 		}
@@ -130,7 +154,7 @@ func (ca *CA) Issue(o LeafOpt) *Leaf {
 		DNSNames:     o.DNS,
 		IPAddresses:  []net.IP{net.IPv4(127, 0, 0, 1)},
 	}
-	der, err := x509.CreateCertificate(rand.Reader, tpl, ca.Cert, pub, ca.Key)
+	der, err := x509.CreateCertificate(pkiRand, tpl, ca.Cert, pub, ca.Key)
 	if err != nil {
 		panic(err)
 	}
